@@ -1409,6 +1409,8 @@ class Interp(object):
             h = st.heap.get(base.ident, {})
             if attr in h:
                 return h[attr]
+            if base.const_attrs is not None and attr in base.const_attrs:
+                return base.const_attrs[attr]
             if base.cnode is None and attr in self.method_models:
                 return AMethod(base, attr)
             if base.cnode is not None:
